@@ -261,8 +261,29 @@ ML_MACROS = {
 }
 
 
+ML_RANDOM = ["ml_label", "ml_scaler", "ml_binarizer"]  # shipped in every ml module; `ml_tree` only in ml.v5
+ML_MACROS["ml_tree"] = {
+    # one tree, one split on feature 0 (<= 0.31 -> +1, else +2), added to the input: TreeEnsemble exists since ai.onnx.ml 5
+    "np": lambda a, p: (a[0] + np.where(a[0][:, :1] <= F32(0.31), F32(1.0), F32(2.0))).astype(F32),
+    "emits": lambda mv, p: [("ai.onnx.ml", "TreeEnsemble"), ("", "Add")],
+}
+
+
+def pick_ml(rng):
+    """(macro, ml module version): a quarter of the ml statements is the ml-5-only TreeEnsemble"""
+    if rng.random() < 0.25:
+        return "ml_tree", 5
+    return rng.choice(ML_RANDOM), rng.choice(ML_VERSIONS)
+
+
 def build_ml(name, mv, dv, a):
     m, o = ml(mv), ops(dv)
+    if name == "ml_tree":
+        t = m.tree_ensemble(a[0], n_targets=1, tree_roots=[0], nodes_featureids=[0], nodes_modes=np.array([0], np.uint8),
+                            nodes_splits=np.array([0.31], np.float32), nodes_truenodeids=[0], nodes_trueleafs=[1],
+                            nodes_falsenodeids=[1], nodes_falseleafs=[1], leaf_targetids=[0, 0],
+                            leaf_weights=np.array([1.0, 2.0], np.float32), aggregate_function=1, post_transform=0)
+        return o.add(a[0], t)
     if name == "ml_label":
         i = o.cast(o.round(a[0]), to=np.int64)
         e = m.label_encoder(i, keys_int64s=[1, 2], values_int64s=[5, 6], default_int64=-1)
@@ -1015,8 +1036,8 @@ class Gen:
                 body, bt = self.block(params, set(), 1, 0, in_func=True)
                 if self.allow_ml and not bt and rng.random() < 0.35:
                     mid = self.fresh()
-                    body["nodes"].append({"id": mid, "op": rng.choice(list(ML_MACROS)), "mv": rng.choice(ML_VERSIONS),
-                                          "dv": self.mv(), "args": [body["out"]]})
+                    mlop, mlv = pick_ml(rng)
+                    body["nodes"].append({"id": mid, "op": mlop, "mv": mlv, "dv": self.mv(), "args": [body["out"]]})
                     body["out"] = mid
                 if self.func_versions and self.func_versions[0] in PIN:
                     op_, mv_ = PIN[self.func_versions[0]]
@@ -1042,7 +1063,8 @@ class Gen:
                 if st["op"] == "reffn" and rng.random() < 0.5:
                     st["k"] = rng.choice([2.0, -0.5, 1.5, 3.0])  # the same function, another attribute value
             elif r < 0.39 and self.allow_ml:
-                st = {"id": self.fresh(), "op": rng.choice(list(ML_MACROS)), "mv": rng.choice(ML_VERSIONS),
+                mlop, mlv = pick_ml(rng)
+                st = {"id": self.fresh(), "op": mlop, "mv": mlv,
                       "dv": self.mv(), "args": [rng.choice([p for p in pool if p not in tainted] or ["x"])]}
             elif r < 0.45 and self.allow_dyn and not in_func:
                 src = rng.choice([p for p in pool if p not in tainted] or ["x"])
@@ -1275,8 +1297,8 @@ def inline_mix_program(rng, idx=0):
     src = rng.choice(pool + [a["id"]])
 
     def ml_stmt(arg):
-        op = rng.choice(["ml_label", "ml_label", "ml_scaler", "ml_binarizer"])
-        return {"id": g.fresh(), "op": op, "mv": rng.choice(ML_VERSIONS), "dv": g.mv(), "args": [arg]}
+        op = rng.choice(["ml_label", "ml_label", "ml_scaler", "ml_binarizer", "ml_tree"])
+        return {"id": g.fresh(), "op": op, "mv": 5 if op == "ml_tree" else rng.choice(ML_VERSIONS), "dv": g.mv(), "args": [arg]}
 
     if where == "top":
         e = ml_stmt(src)
